@@ -21,7 +21,7 @@ SPEC = {
     "assumptions": ["mass-difference field (dd) kept 0: the property names M  ISO and D/T as the isotope encodings", "coordinates representable in F10.4", "S  SKP skip-lines not generated"],
     "monitors_required": ["c08_v2000_vs_model", "c08_v2000_vs_v3000", "c08_string_compare"],
     "required_obs": {"quick": ["entries_per_line/8", "entries_per_line/3", "encoding/codes", "encoding/lines", "encoding/stale", "dt_with_foreign_iso", "unrelated", "atom_list_lines",
-                               "cov_three_digit_indices", "cov_isotopologue_history", "cov_identical_atom_lines_in_one_file", "cov_rad_only_lines_with_codes", "cov_chg_only_lines_with_radical_codes"]},
+                               "cov_three_digit_indices", "cov_adjacent_fixed_width_fields", "cov_isotopologue_history", "cov_identical_atom_lines_in_one_file", "cov_rad_only_lines_with_codes", "cov_chg_only_lines_with_radical_codes"]},
     "watchdog_s": {"quick": 900, "thorough": 5400},
 }
 PLAN = {"quick": {"cases": 5000, "big": 40}, "thorough": {"cases": 60000, "big": 400}}
@@ -62,6 +62,12 @@ def gen_mol(rng, big=False):
             if rng.random() < 0.7:
                 a.chg = rng.choice([-2, -1, 1, 2, 5])
     mol.bonds = [(i, j, rng.choice([1, 1, 2, 3, 4, 8])) for i, j, _ in mol.bonds]
+    if rng.random() < 0.25:
+        # coordinates that fill the whole F10.4 field, so that neighbouring fixed-width fields touch (no blank between them)
+        for a in mol.atoms:
+            a.x, a.y, a.z = (round(rng.choice([-1, 1]) * rng.uniform(1000, 9999.9999), 4) if rng.random() < 0.7 else round(rng.uniform(-999.9999, -100), 4) for _ in range(3))
+            a.x = max(a.x, -9999.9999)
+        mol.name += "+widecoords"
     return mol
 
 
@@ -116,6 +122,8 @@ def _run_case(ctx, case):
     merge_obs(ctx.obs, obs)
     if len(work.atoms) >= 100:
         ctx.count("cov_three_digit_indices")
+    if any(len(f"{v:.4f}") >= 10 for a in work.atoms for v in (a.y, a.z)):
+        ctx.count("cov_adjacent_fixed_width_fields")
     exp_nodes, exp_edges = ctab.expected_nodes(work), ctab.expected_edges(work)
     ctx.mon("c08_v2000_vs_model")
     got = ctab.observed_nodes(g2)
